@@ -89,6 +89,18 @@ func c17stress(args []string) {
 				fmt.Fprintf(&src, "(run (progn (dotimes (i %d) (funcall crit)) (channel-push fin %d)))\n", st.M, p)
 			}
 			fmt.Fprintf(&src, "(dotimes (i %d) (channel-pop fin))\n", st.N)
+		case "selectfn":
+			// one function that receives with select from the channel it is given, used for two channels in turn by one routine
+			// (the select form is the same object both times): what is received from a channel was pushed on that channel.
+			// producers 1..n push on ca, n+1..2n on cb
+			fmt.Fprintf(&src, "(setq ca (make-channel %d)) (setq cb (make-channel %d)) (setq fin (make-channel %d))\n(defun c17rcv%d (c) (select (c v v)))\n", st.Cap, st.Cap, 4*st.N, st.ID)
+			fmt.Fprintf(&src, "(run (let ((la nil) (lb nil)) (dotimes (i %d) (setq la (cons (c17rcv%d ca) la)) (setq lb (cons (c17rcv%d cb) lb))) (setq got1 (reverse la)) (setq got2 (reverse lb)) (channel-push fin 0)))\n",
+				st.N*st.M, st.ID, st.ID)
+			for p := 1; p <= st.N; p++ {
+				fmt.Fprintf(&src, "(run (progn (dotimes (i %d) (channel-push ca (list %d i))) (channel-push fin %d)))\n", st.M, p, p)
+				fmt.Fprintf(&src, "(run (progn (dotimes (i %d) (channel-push cb (list %d i))) (channel-push fin %d)))\n", st.M, st.N+p, p)
+			}
+			fmt.Fprintf(&src, "(dotimes (i %d) (channel-pop fin))\n", 2*st.N+1)
 		case "syncmethod":
 			// a synchronized flavor instance whose own methods reach its variables through with-slots: n routines call
 			// the methods m times, the read-modify-write is inside one method call (x = n m)
@@ -231,6 +243,8 @@ func c17stress(args []string) {
 			return
 		}
 		switch st.Kind {
+		case "selectfn":
+			ev["got"] = [][][]int{c17sPairs(h.Eval(s, "got1").Val), c17sPairs(h.Eval(s, "got2").Val)}
 		case "chan", "select":
 			got := [][][]int{}
 			for c := 1; c <= st.N; c++ {
